@@ -118,9 +118,8 @@ Proof.
     2:{ destruct (fl =? 0); cbn [fst]; [exact L|].
         intros e He. unfold OLe, regList in *. rewrite Hr in L. cbn [reg last pendF pendR] in *. specialize (L e He). lia. }
     unfold OLe, regList in *. rewrite Hr in L.
-    destruct (lookup k r) as [c|] eqn:Lk; destruct (fl =? 0); cbn [fst reg last pendF pendR];
+    destruct (lookup k r) as [c|] eqn:Lk; [|destruct (fl =? 0)]; cbn [fst reg last pendF pendR];
       try rewrite Hr; intros e He; rewrite !in_app_iff in *; simpl in He.
-    + destruct He as [He|He]; [apply L; rewrite !in_app_iff; left; eapply in_delete; exact He|apply L; rewrite !in_app_iff; tauto].
     + destruct He as [[<-|He]|He]; [cbn; lia| |].
       * assert (eOrd e <= last p) by (apply L; rewrite !in_app_iff; left; eapply in_delete; exact He). lia.
       * assert (eOrd e <= last p) by (apply L; rewrite !in_app_iff; tauto). lia.
